@@ -2,7 +2,8 @@
    Every theorem is about a run of fdl.build (Build.build_node under Traverse.mrun) on a
    well-formed heap with a valid root.  Proofs: theories/Traverse_proofs.v, Build_proofs.v. *)
 From Fiddle Require Import PyBase PySlice Sig ArgStore PyCall Heap Traverse Build Build_stmt
-  Traverse_proofs Build_proofs AnchorsBuild.
+  Traverse_proofs Build_proofs AnchorsBuild C08Check Cycle_proofs.
+From Coq Require Import Relations.
 
 Local Open Scope nat_scope.
 
@@ -182,3 +183,15 @@ Proof.
   split; [reflexivity |]. split; reflexivity.
 Qed.
 Print Assumptions C02_nonvacuous.
+
+(* On ARBITRARY heaps (cycles allowed): fdl.build never recurses without bound - it ends with a result
+   or an error - and a cycle error names an object that really reaches itself. *)
+Theorem C02_build_never_recurses_forever : forall e fails h r s res,
+  mrun e h (build_node e fails) r = (s, res) -> res <> inr FOutOfFuel.
+Proof. exact build_never_out_of_fuel. Qed.
+Print Assumptions C02_build_never_recurses_forever.
+
+Theorem C02_build_reported_cycle_is_real : forall e fails h r s c,
+  mrun e h (build_node e fails) r = (s, inr (FCycle c)) -> clos_trans nat (cstep e h) c c.
+Proof. exact build_cycle_real. Qed.
+Print Assumptions C02_build_reported_cycle_is_real.
